@@ -145,7 +145,9 @@ def respell(rng, s):
             return tok
         if v != int(v) or abs(v) > 1e6:
             return tok
-        return rng.choice([tok, f"{int(v)}.0", f"{int(v)}e0", f"{int(v)}."])
+        iv = int(v)
+        dotted = f".{iv}e{len(str(iv))}" if iv > 0 and not str(iv).endswith("0") else tok      # 5 -> .5e1, 12 -> .12e2
+        return rng.choice([tok, f"{iv}.0", f"{iv}e0", f"{iv}.", dotted, dotted.replace("e", "E+")])
     if rng.random() < 0.5:
         out = re.sub(r"(?<![A-Za-z_0-9.])\d+(?![\d.eExA-Za-z_])", num, out)
     return out
